@@ -181,6 +181,8 @@ def install(I):
     E["struct.error"] = ns["struct.error"]
     E["math.ceil"] = Builtin("math.ceil", _ceil)
     E["math.floor"] = Builtin("math.floor", _floor)
+    E["math.radians"] = Builtin("math.radians", lambda i, a, k: math.radians(a[0]) if type(a[0]) in (int, float)
+                                else i.binop(__import__("ast").Mult(), a[0], math.pi / 180.0))
     E["math.pi"] = math.pi
     E["math.inf"] = math.inf
     E["math.sin"] = Builtin("math.sin", lambda i, a, k: __import__("pyvc.npmodel", fromlist=["trig"]).trig(i, "sin", a[0]),
